@@ -551,3 +551,11 @@ Proof.
   unfold decode. destruct (decode_lax b) as [n'| |]; cbn [bind]; try discriminate.
   destruct (has_dup_deep n') eqn:E; [discriminate|]. intro H. inversion H; subst. auto.
 Qed.
+
+Theorem dagcbor_roundtrip_full n :
+  wf_node n = true ->
+  decode (encode n) = Ok (norm n) /\ (canonical n = true -> decode (encode n) = Ok n) /\
+  wf_node (norm n) = true.
+Proof.
+  intro H. split; [apply dagcbor_roundtrip_proved, H|]. split; [apply dagcbor_roundtrip_canonical, H|apply wf_norm, H].
+Qed.
